@@ -38,7 +38,7 @@ fn gen_spec(rng: &mut Rng) -> AppSpec {
     if matches!(spec.world.trav, TravCfg::Speed { .. }) && rng.chance(0.2) {
         let ne = spec.world.net.ne();
         let vehicle = ["ice", "bev", "phev"][rng.below(3)].to_string();
-        spec.energy = Some(EnergySpec { vehicle: vehicle.clone(), grades: (0..ne).map(|_| (rng.frange(-0.1, 0.1) * 100.0).round() / 100.0).collect(), cache: rng.chance(0.5), capacity_kwh: rng.frange(1.0, 60.0), cache_cfg: (64, 3, 5) });
+        spec.energy = Some(EnergySpec { vehicle: vehicle.clone(), grades: (0..ne).map(|_| (rng.frange(-0.1, 0.1) * 100.0).round() / 100.0).collect(), cache: rng.chance(0.5), capacity_kwh: rng.frange(1.0, 60.0), cache_cfg: (64, 3, 5), adjustment: if rng.chance(0.3) { Some(1.2) } else { None } });
         spec.world.access = crate::world::AccessCfg::None;
         let e = if vehicle == "ice" { "energy_liquid" } else { "energy_electric" };
         spec.world.cost.weights.push((e.to_string(), 1.0));
